@@ -1,5 +1,3 @@
-//go:build verif_c19
-
 package harness
 
 import (
@@ -95,36 +93,36 @@ func contractFor(c *neotest.Contract, sender util.Uint160) *neotest.Contract {
 var gasMarker = []byte{0x57, 0x0b}
 
 type gasEnvCfg struct {
-	NC        int   `json:"committee"`       // committee size of the chain
-	NotaryOff bool  `json:"notary_disabled"` // neofs deployed in notary-disabled mode
-	NAlpha    int   `json:"alphabet"`        // keys in neofs' stored alphabet list
-	WFee      *int64 `json:"withdraw_fee"`   // nil = not configured
-	CFee      *int64 `json:"candidate_fee"`
-	IR        int   `json:"inner_ring"`      // designated NeoFSAlphabet keys (0 = none designated)
+	NC        int     `json:"committee"`       // committee size of the chain
+	NotaryOff bool    `json:"notary_disabled"` // neofs deployed in notary-disabled mode
+	NAlpha    int     `json:"alphabet"`        // keys in neofs' stored alphabet list
+	WFee      *int64  `json:"withdraw_fee"`    // nil = not configured
+	CFee      *int64  `json:"candidate_fee"`
+	IR        int     `json:"inner_ring"`    // designated NeoFSAlphabet keys (0 = none designated)
 	AlphaIdx  []int64 `json:"alpha_index"`   // index argument of each deployed Alphabet contract
-	ProxyKind int   `json:"proxy_kind"`      // 0: real proxy, 1: plain account, 2: the neofs contract
-	FundAlpha int64 `json:"fund_alphabet"`   // GAS given to Alphabet contract i at setup: (i+1)*FundAlpha
+	ProxyKind int     `json:"proxy_kind"`    // 0: real proxy, 1: plain account, 2: the neofs contract
+	FundAlpha int64   `json:"fund_alphabet"` // GAS given to Alphabet contract i at setup: (i+1)*FundAlpha
 }
 
 type gasEnv struct {
 	*Env
-	cfg        gasEnvCfg
-	gasH, neoH util.Uint160
-	committee  []*wallet.Account // chain committee keys (index = generation order)
-	alphaMulti neotest.Signer    // 2n/3+1 multisig of the committee (common.AlphabetAddress)
-	payer      neotest.Signer
-	users      []*wallet.Account // U0..U3: ordinary users / candidates
-	alpha      []*wallet.Account // keys of the neofs alphabet list (notary-disabled mode)
-	irKeys     []*wallet.Account // designated inner ring
+	cfg                                     gasEnvCfg
+	gasH, neoH                              util.Uint160
+	committee                               []*wallet.Account // chain committee keys (index = generation order)
+	alphaMulti                              neotest.Signer    // 2n/3+1 multisig of the committee (common.AlphabetAddress)
+	payer                                   neotest.Signer
+	users                                   []*wallet.Account // U0..U3: ordinary users / candidates
+	alpha                                   []*wallet.Account // keys of the neofs alphabet list (notary-disabled mode)
+	irKeys                                  []*wallet.Account // designated inner ring
 	neofs, processing, proxy, token, accept util.Uint160
-	alphabets  []util.Uint160
-	proxyAddr  util.Uint160 // what the Alphabet contracts were given as proxy
-	plain      [][]byte     // plain 20-byte addresses without keys
-	parties    [][]byte     // observed GAS accounts
-	partyNames []string
-	signers    map[string]neotest.Signer // by name
-	fsAlphaMulti neotest.Signer
-	junkKey    []byte
+	alphabets                               []util.Uint160
+	proxyAddr                               util.Uint160 // what the Alphabet contracts were given as proxy
+	plain                                   [][]byte     // plain 20-byte addresses without keys
+	parties                                 [][]byte     // observed GAS accounts
+	partyNames                              []string
+	signers                                 map[string]neotest.Signer // by name
+	fsAlphaMulti                            neotest.Signer
+	junkKey                                 []byte
 }
 
 const gasUserFunds = 30000_0000_0000 // 30000 GAS
@@ -315,7 +313,6 @@ func scriptHashOf(tx *transaction.Transaction) []byte {
 	return hash.Hash160(tx.Script).BytesBE()
 }
 
-
 // ---------------------------------------------------------------------------
 // Operations
 
@@ -418,17 +415,17 @@ type gasEv struct {
 }
 
 type gasObs struct {
-	halt   bool
-	fault  string
-	ret    string
-	evs    []gasEv
-	bal    []*big.Int
-	cands  [][]byte
-	wfee   []byte
+	halt    bool
+	fault   string
+	ret     string
+	evs     []gasEv
+	bal     []*big.Int
+	cands   [][]byte
+	wfee    []byte
 	wfeeNil bool
-	cfee   []byte
+	cfee    []byte
 	cfeeNil bool
-	alpha  [][]byte
+	alpha   [][]byte
 	// inputs of the model read from the chain
 	wit       [][]byte
 	fsAlpha   []byte
